@@ -87,7 +87,7 @@ def gen_fa(rng, kind=None, max_states=5, max_symbols=3, max_trans=9, plain_symbo
             symmode = "str"
     case = {"kind": kind, "valmode": valmode, "symmode": symmode, "states": states,
             "symbols": symbols, "hash": hashes, "hashmode": mode, "trans": trans, "starts": starts,
-            "finals": finals, "ctor": rng.chance(0.25), "ctor_all": rng.chance(0.5),
+            "finals": finals, "ctor": rng.chance(0.25), "ctor_all": rng.chance(0.5), "ctor_tf": rng.chance(0.12),
             "extra_symbols": ([rng.pick(["x", "y"])] if rng.chance(0.12) else []),
             "extra_states": []}
     if rng.chance(0.18):
@@ -162,8 +162,9 @@ def ref_of(case):
     finals = {skey(case, s) for s in case["finals"]}
     st |= starts | finals
     alpha = {a for _, a, _ in tr if a is not None} | {ykey(case, s) for s in case.get("extra_symbols", [])}
-    if case.get("ctor") and case.get("ctor_all"):
+    if (case.get("ctor") or (case.get("ctor_tf") and not _ghosts(case))) and case.get("ctor_all"):
         alpha |= {ykey(case, s) for s in case["symbols"]}
+        st |= {skey(case, s) for s in case["states"]}
     for p, a, q in _ghosts(case):
         if [p, a, q] not in case["trans"]:
             st |= {skey(case, p), skey(case, q)}
@@ -190,6 +191,27 @@ def build(case):
            "dfa": DeterministicFiniteAutomaton}[case["kind"]]
     starts = [sval(case, s) for s in case["starts"]]
     finals = [sval(case, s) for s in case["finals"]]
+    if case.get("ctor_tf") and not _ghosts(case):
+        # a ready-made transition function filled directly with its own State / Symbol objects, handed to the
+        # constructor; the state and symbol sets are declared or left to the constructor to collect
+        from pyformlang.finite_automaton import (State, Symbol, NondeterministicTransitionFunction,
+                                                  TransitionFunction)
+        tf = TransitionFunction() if case["kind"] == "dfa" else NondeterministicTransitionFunction()
+        for p, a, q in case["trans"]:
+            tf.add_transition(State(sval(case, p)), Epsilon() if a is None else Symbol(yval(case, a)),
+                              State(sval(case, q)))
+        kw = {}
+        if case.get("ctor_all"):
+            kw = {"states": {sval(case, s) for s in case["states"]},
+                  "input_symbols": {yval(case, s) for s in case["symbols"]}}
+        if case["kind"] == "dfa":
+            fa = cls(transition_function=tf, start_state=(starts[0] if starts else None),
+                     final_states=set(finals), **kw)
+        else:
+            fa = cls(transition_function=tf, start_state=set(starts), final_states=set(finals), **kw)
+        for s in case.get("extra_symbols", []):
+            fa.add_symbol(yval(case, s))
+        return fa
     if case.get("ctor"):
         # every constructor argument: declared states (all of them) and the declared alphabet
         kw = {"states": {sval(case, s) for s in case["states"]},
@@ -294,10 +316,12 @@ def shrink_fa(case):
             yield mk(ghost_trans=case["ghost_trans"][:i] + case["ghost_trans"][i + 1:])
     if case.get("ghost_final") is not None:
         yield mk(ghost_final=None)
+    if case.get("ctor_tf"):
+        yield mk(ctor_tf=False)
     if case.get("ctor"):
         yield mk(ctor=False)
-        if case.get("ctor_all"):
-            yield mk(ctor_all=False)
+    if case.get("ctor_all"):
+        yield mk(ctor_all=False)
     for i, t in enumerate(case["trans"]):
         if t[1] is None and case["kind"] == "enfa":
             continue
